@@ -143,6 +143,19 @@ def gen_cases(rng, tier):
     for n, m in (((2, 3),) if tier == "quick" else ((1, 1), (2, 3), (4, 2), (5, 4))):
         base = _structure(rng, n, "linear", sharding=True)
         cases.append({"kind": "resume", "segs": [base], "m": m})
+    # a validation module that never requests a stop must not disturb anything the property names: the tracked
+    # histories are the post-update values of EVERY iteration, also between two invocations and after an
+    # invocation that did not improve (where the "best" parameters lag behind the current ones)
+    from harness.c18 import script_outcomes
+    for c, n in (((2, 7), (3, 10)) if tier == "quick" else ((1, 5), (2, 7), (2, 12), (3, 10), (4, 13), (5, 11))):
+        base = _structure(rng, n, "linear", aux=False)
+        base["track"] = sp.full_track(base["shape"])
+        L = n // c + 2
+        pat = "i" + "".join(rng.choice("wsi") for _ in range(L - 1))
+        if "w" not in pat and "s" not in pat:
+            pat = pat[:1] + "w" + pat[2:]
+        base["val"] = {"kind": "scripted", "call_every": c, "script": script_outcomes(pat)}
+        cases.append({"kind": "single", "segs": [base, _variant(rng, base)]})
     for _ in range(nresume):
         n, m = rng.choice([(1, 1), (2, 3), (3, 2), (5, 4), (4, 7), (8, 8), (6, 1), (12, 9)])
         aux = rng.random() < 0.3
@@ -283,6 +296,8 @@ def tags(case, obs):
         out.append("param_generator")
     if seg["gens"]["obs"]:
         out.append("obs_generator")
+    if seg.get("val"):
+        out.append("validation_module(no_stop)")
     tr = seg.get("track")
     out.append("track=none" if tr is None else ("track=holes" if (tr["nn"] is None or tr["eq"] is None or
                any(v is None for g in ("nn", "eq") if tr[g] for v in tr[g].values())) else "track=all"))
